@@ -601,26 +601,45 @@ theorem injected_422_loses_wakeup (own : String) :
     | base bl =>
       cases bl <;> simp [LLabel.isOperator] at hl <;> simp [lstep, step, stepMerge, stepJson, w0]
 
-/-- The second conjunct of `LGuard` is necessary (open finding F8 = C03-N1 in the model): a daemon is still
-exiting when the deletion is requested; the cycle returns delays; a handler has put a transformation fn into
-the patch that has nothing to change, so the patch is non-empty but NO request is sent — `apply` takes the
-missing version for a change and skips the sleep; the daemon exits; the object waits, settled, with no enabled
-step of the operator. -/
-theorem noop_fn_loses_wakeup (own : String) :
+/-- The history of the former finding F8 (= C03-N1, repaired in b7bf39c), now live: a daemon is still exiting when
+the deletion is requested; the cycles return delays; a handler has put a transformation fn into the patch that has
+nothing to change, so the patch is non-empty but NO request is sent. That is no longer taken for a change: the
+worker sleeps and will touch the object; after the daemon's exit the touch and one quiet cycle release it.
+(Before the repair the state after `daemonExits` had `sleeping = false`, an empty queue and no enabled step.) -/
+theorem noop_fn_keeps_wakeup (own : String) :
+    let b0 : State := { w0 with matchDel := false, matchDmn := true }
+    let s0 : LState := { base := b0, queue := [snap b0], sleeping := false, cycDelays := false, cycMerge := false,
+                         cycChanges := false, cycViewRv := 0, cycUserFns := false }
+    let uf : Env := { quiet with userFns := true }
+    lrun own s0 [.base (.decide quiet ⟨0, false, [], false, true⟩), .base (.jsonPatch false), .base .mark,
+      .base (.decide uf ⟨1, false, [own], false, true⟩), .base (.jsonPatch false),
+      .base (.decide uf ⟨2, true, [own], false, true⟩), .base (.jsonPatch false), .base (.daemonExits false),
+      .touch, .base (.decide quiet ⟨3, true, [own], false, true⟩), .base (.jsonPatch false)] =
+    some { base := { b0 with gone := true, marked := true, fins := [], rv := 4, dmnLive := false },
+           queue := [⟨4, true, [], false, true⟩], sleeping := false, cycDelays := false, cycMerge := false,
+           cycChanges := false, cycViewRv := 3, cycUserFns := false } := by
+  simp [lrun, lstep, enqueue, step, stepDecide, stepJson, stepMark, snap, w0, quiet, decision, inputs,
+    Decision.fns, mustBlockG, addG, removeG, earlyG, releaseG, applyFns, Fn.apply, blockDeletion, allowDeletion, allowLoop,
+    sleepsAfter, changedUnwritten]
+
+/-- The second conjunct of `LGuard` is still necessary (open finding F9 = C03-N2 in the model): with a handler-supplied
+fn carried over in the patch, a cycle may leave before the handlers and the release (`consistent = false`: the patch is
+non-empty from the start) although NO other event is queued; the fn has nothing to change, nothing is sent, no delay
+was returned — the object waits, settled, with no enabled step of the operator. -/
+theorem carried_fn_loses_wakeup (own : String) :
     ∃ s, LReach own s ∧ Waiting own s.base ∧ Settled s.base ∧
       ∀ l, LLabel.isOperator l = true → lstep own s l = none := by
-  let b0 : State := { w0 with matchDel := false, matchDmn := true }
-  let s0 : LState := { base := b0, queue := [snap b0], sleeping := false, cycDelays := false, cycMerge := false,
+  let s0 : LState := { base := w0, queue := [snap w0], sleeping := false, cycDelays := false, cycMerge := false,
                        cycChanges := false, cycViewRv := 0, cycUserFns := false }
-  let uf : Env := { quiet with userFns := true }
-  let ls : List LLabel := [.base (.decide quiet ⟨0, false, [], false, true⟩), .base (.jsonPatch false), .base .mark,
-    .base (.decide uf ⟨1, false, [own], false, true⟩), .base (.jsonPatch false),
-    .base (.decide uf ⟨2, true, [own], false, true⟩), .base (.jsonPatch false), .base (.daemonExits false)]
+  let uf : Env := { quiet with userFns := true, consistent := false }
+  let ls : List LLabel := [.base (.decide quiet ⟨0, false, [], true, false⟩), .base (.jsonPatch false), .base .mark,
+    .base .handlerFinishes, .base (.decide quiet ⟨1, false, [own], true, false⟩), .base (.jsonPatch false),
+    .base (.decide uf ⟨2, true, [own], true, false⟩), .base (.jsonPatch false)]
   have hrun : lrun own s0 ls = some
-      { base := { b0 with marked := true, fins := [own], rv := 2, dmnLive := false },
-        queue := [], sleeping := false, cycDelays := true, cycMerge := false, cycChanges := false, cycViewRv := 2,
+      { base := { w0 with marked := true, fins := [own], rv := 2, delDone := true },
+        queue := [], sleeping := false, cycDelays := false, cycMerge := false, cycChanges := false, cycViewRv := 2,
         cycUserFns := true } := by
-    simp [ls, s0, b0, uf, lrun, lstep, enqueue, step, stepDecide, stepJson, stepMark, snap, w0, quiet, decision, inputs,
+    simp [ls, s0, uf, lrun, lstep, enqueue, step, stepDecide, stepJson, stepMark, snap, w0, quiet, decision, inputs,
       Decision.fns, mustBlockG, addG, removeG, earlyG, releaseG, applyFns, Fn.apply, blockDeletion, sleepsAfter, changedUnwritten]
   have hreach : ∀ (ls : List LLabel) (s s' : LState), LReach own s → lrun own s ls = some s' → LReach own s' := by
     intro ls
@@ -635,12 +654,12 @@ theorem noop_fn_loses_wakeup (own : String) :
   refine ⟨_, hreach ls s0 _ (LReach.init ?_) hrun, ?_, ?_, ?_⟩
   · exact ⟨⟨rfl, rfl, rfl, rfl, rfl, rfl, rfl⟩, rfl, rfl, rfl, rfl, rfl⟩
   · exact ⟨rfl, rfl, by simp⟩
-  · exact ⟨fun h => (by cases h), rfl⟩
+  · exact ⟨fun _ => rfl, rfl⟩
   · intro l hl
     cases l with
     | touch => simp [lstep]
     | base bl =>
-      cases bl <;> simp [LLabel.isOperator] at hl <;> simp [lstep, step, stepMerge, stepJson, b0, w0]
+      cases bl <;> simp [LLabel.isOperator] at hl <;> simp [lstep, step, stepMerge, stepJson, w0]
 
 /-- The history of the former finding F7 (repaired in 7224f57), now live: a daemon is still exiting when the
 deletion is requested; the cycles return delays and their patch has dict content that changes nothing. The
